@@ -47,6 +47,8 @@ def opname(n):
 def model_check(v, tier):
     jobs = [("HttpSess_mc_quick.cfg" if tier == "quick" else "HttpSess_mc_thorough.cfg", 4),
             ("HttpSess_mc_stateless.cfg", 1), ("HttpSess_mc_notimeout.cfg", 2)]
+    if tier != "quick":
+        jobs.append(("HttpSess_mc_thorough2.cfg", 2))
     base = open(os.path.join(vlib.SPEC, "HttpSess_mc_quick.cfg")).read().split("INVARIANTS")[0]
 
     def mc(job):
@@ -204,17 +206,19 @@ def run(tier, seed, replay):
         tmark[0] = time.time()
     v.cov["phase_s"] = phase
     hist_path = os.path.join(out, "histories.ndjson")
+    rep = json.load(open(replay))["replay"] if replay else None
+    for stale in glob.glob(os.path.join(out, "violation-*.json")):
+        os.remove(stale)  # violation files describe the current run only
     if replay:
-        rep = json.load(open(replay))["replay"]
         rows = [{"id": "replay", "timeout": rep["timeout"], "stateless": rep["stateless"], "ops": rep["ops"]}]
     else:
         # 1. design: exhaustive model check + witnesses (runs while the graphs are generated)
         with ThreadPoolExecutor(max_workers=1) as bg:
             fut = bg.submit(model_check, v, tier)
             # 2. behaviours
-            nsim = 250 if tier == "quick" else 4000
+            nsim = 600 if tier == "quick" else 4000
             gens = [
-                (lambda: cover_histories(v, "HttpSess_cover_quick.cfg", 2, False, seed, False, "cover.", 0.6))
+                (lambda: cover_histories(v, "HttpSess_cover.cfg", 3, False, seed, False, "cover.", 1.2))
                 if tier == "quick" else
                 (lambda: cover_histories(v, "HttpSess_cover.cfg", 3, False, seed, True, "cover.")),
                 lambda: cover_histories(v, "HttpSess_cover_stateless.cfg", 0, True, seed, True, "stateless."),
@@ -241,7 +245,8 @@ def run(tier, seed, replay):
         if os.path.exists(op):
             os.remove(op)
         rc, gout, wall = vlib.go_test("mcp", "^TestVerif_C11$", HARNESS,
-                                      env={"VERIF_IN": hp, "VERIF_OUT": op, "VERIF_SEED": seed + 1000 * i}, timeout=1200)
+                                      env={"VERIF_IN": hp, "VERIF_OUT": op, "VERIF_SEED": seed + 1000 * i}, timeout=1200,
+                                      race=(tier == "thorough" and i == 0))  # one shard under the race detector
         vlib.go_must_build(rc, gout, PID)
         got = vlib.read_ndjson(op) if os.path.exists(op) else []
         os.remove(hp)
@@ -256,6 +261,11 @@ def run(tier, seed, replay):
     obs_rows = []
     for i, (rc_go, gout, got) in enumerate(results):
         tr = vlib.split_traces(got)
+        if "DATA RACE" in gout:
+            m = re.search(r"WARNING: DATA RACE(?:.|\n)*?\n\s+(\S+)\(", gout)
+            v.violation("NoRace:%s" % (m.group(1).split("/")[-1] if m else "?"),
+                        "data race reported by the race detector while replaying histories", {"output": gout[-3000:]})
+            rc_go = 0 if len(tr) == len(shards[i]) else rc_go
         if rc_go != 0:
             # a panic / bubble deadlock inside SDK code while a history was replayed is real-code behaviour
             lines = [l for l in gout.splitlines() if l.startswith("panic:") or "fatal error" in l or "deadlock" in l]
